@@ -46,14 +46,86 @@ Definition entry_bytes (p : prefix) (it : citem) : Z := Z.of_nat (length p) + it
 Definition cache_bytes (c : cache) : Z :=
   fold_right (fun e a => (entry_bytes (fst e) (snd e) + a)%Z) 0%Z c.
 
+Definition evict (ps : list prefix) (c : cache) : cache := fold_left (fun c q => cdel q c) ps c.
+
 (** One [Set] of a cache of [max] bytes (0 = unlimited) as the golibs cache
-    does it: an element larger than the cache is refused; otherwise elements
-    are deleted until the new one fits beside what is left (the element it
-    replaces still counted), then it is stored.  [set_fits] is that condition
-    on an observed event: which elements go is the event's. *)
+    does it: an element larger than the cache is refused and nothing is
+    deleted; otherwise elements are deleted as long as the new one does not
+    fit beside what is left (the element it replaces still counted), then it
+    is stored.  [set_fits] is that condition on an observed event: the element
+    is kept iff it is not larger than the cache, the deletions make it fit, and
+    without the last deletion it did not fit.  WHICH elements go (the LRU
+    order) is the event's. *)
 Definition set_fits (max : Z) (e : set_ev) (p : prefix) (it : citem) (c : cache) : bool :=
-  if (max =? 0)%Z then snd e
-  else
-    let c1 := fold_left (fun c q => cdel q c) (fst e) c in
-    if (entry_bytes p it >? max)%Z then negb (snd e)
-    else snd e && (cache_bytes c1 + entry_bytes p it <=? max)%Z.
+  let nodel := match fst e with [] => true | _ => false end in
+  let eb := entry_bytes p it in
+  if (max =? 0)%Z then snd e && nodel
+  else if (eb >? max)%Z then negb (snd e) && nodel
+  else snd e && (cache_bytes (evict (fst e) c) + eb <=? max)%Z
+       && (nodel || negb (cache_bytes (evict (removelast (fst e)) c) + eb <=? max)%Z).
+
+(** The same traversal as [store_pos] / [store_neg] / [store_in_cache] /
+    [check], asking [set_fits] of every [Set] on the cache as it is then. *)
+Fixpoint store_pos_fits (max exp : Z) (resp : list hash) (ps : list prefix) (evs : list set_ev)
+    (c : cache) : bool :=
+  match ps with
+  | [] => true
+  | p :: r =>
+      let '(e, evs') := pop evs in
+      let it := {| c_expiry := exp; c_hashes := filter (fun h => eqb_bytes (prefix_of h) p) resp |} in
+      set_fits max e p it c && store_pos_fits max exp resp r evs' (cset_o e p it c)
+  end.
+
+Fixpoint store_neg_fits (max exp : Z) (keys : list prefix) (to_req : list hash) (evs : list set_ev)
+    (c : cache) : bool :=
+  match to_req with
+  | [] => true
+  | h :: r =>
+      let p := prefix_of h in
+      match cget p c with
+      | None =>
+          if mem_hash p keys then store_neg_fits max exp keys r evs c
+          else let '(e, evs') := pop evs in
+               let it := {| c_expiry := exp; c_hashes := [] |} in
+               set_fits max e p it c && store_neg_fits max exp keys r evs' (cset_o e p it c)
+      | Some _ => store_neg_fits max exp keys r evs c
+      end
+  end.
+
+Definition store_fits (max exp : Z) (to_req resp : list hash) (order : list prefix)
+    (evs : list set_ev) (c : cache) : bool :=
+  let keys := dedup (map prefix_of resp) in
+  let ps := filter (fun p => mem_hash p keys) order in
+  store_pos_fits max exp resp ps evs c &&
+  let '(c1, evs1) := store_pos exp resp ps evs c in
+  store_neg_fits max exp keys to_req evs1 c1.
+
+Section Fits.
+  Variable sha : bytes -> hash.
+  Variable pubsuf : bytes -> bytes * bool.
+  Variable suffix : bytes.
+  Variable cache_time : Z.
+  Variable max : Z.
+
+  Definition check_fits (svc : list prefix -> option (list bytes)) (order : list prefix)
+      (evs : list set_ev) (now : Z) (host : bytes) (c : cache) : bool :=
+    match find_in_cache now c (hostname_to_hashes sha pubsuf host) with
+    | ToRequest hs =>
+        match svc (map prefix_of hs) with
+        | Some strs =>
+            store_fits max ((now + cache_time) / ns_sec)%Z hs (parse_txt strs) order evs c
+        | None => true
+        end
+    | _ => true
+    end.
+
+  Fixpoint run_fits (ops : list op) (st : Z * cache) : bool :=
+    match ops with
+    | [] => true
+    | o :: r =>
+        match o with
+        | OCheck host svc order evs => check_fits svc order evs (fst st) host (snd st)
+        | _ => true
+        end && run_fits r (fst (step sha pubsuf suffix cache_time o st))
+    end.
+End Fits.
